@@ -1078,7 +1078,15 @@ def c05l(ctx):
         ok = len(one) == 1 and bool(taken) and all(asg[one[0]] for asg in taken)
         ctx.check(ok, 'CompactCacheBase.%s:shortcut-guard' % m, 'the shortcut is taken only when exactly one bundle file is involved (%d rows)' % len(tab.rows), f)
         fb = [x for x in f.walk() if is_call(x, 'self.load_tile' if m == 'load_tiles' else 'self.store_tile')]
-        ok = bool(fb) and all(isinstance(enclosing(x, ast.For), ast.For) and same(enclosing(x, ast.For).iter, 'tiles') for x in fb)
+        def per_tile(x):
+            # inside a statement loop over the tiles, or the element of a *list* comprehension over them (a list is built completely
+            # before all() looks at it: no tile is skipped; a generator inside all() would stop at the first failure)
+            lp = enclosing(x, ast.For)
+            if isinstance(lp, ast.For) and same(lp.iter, 'tiles'):
+                return True
+            comp = enclosing(x, (ast.ListComp,))
+            return isinstance(comp, ast.ListComp) and len(comp.generators) == 1 and same(comp.generators[0].iter, 'tiles') and not comp.generators[0].ifs
+        ok = bool(fb) and all(per_tile(x) for x in fb)
         ctx.check(ok, 'CompactCacheBase.%s:fallback-per-tile' % m, 'otherwise every tile is handled individually', f)
 
 
